@@ -788,6 +788,13 @@ func (c *Ctx) Sext(a *Term, w int) *Term {
 	if a.IsConst() && w <= 64 {
 		return c.Const(uint64(sext64(a.V, a.W)), w)
 	}
+	if a.IsConst() && a.W == 64 && w == 128 {
+		hi := uint64(0)
+		if int64(a.V) < 0 {
+			hi = ^uint64(0)
+		}
+		return c.mk(&Term{Op: OpConcat, W: 128, A: []*Term{c.Const(hi, 64), a}})
+	}
 	if a.Op == OpZext { // already non-negative
 		return c.Zext(a.A[0], w)
 	}
